@@ -15,7 +15,7 @@ RULE = ("fault enumeration on the handshake reply: for each (token,key,nonce) tr
         "fresh client, after a previous successful authentication with other credentials, and after an expired authentication with the same credentials: the genuine reply; every "
         "single-bit flip of the 64-byte body; every single-bit flip of marker, size, magic and type nibble; every body "
         "length 0..80 != 64; 1..15 surplus bytes announced in the header's padding nibble; every packet type nibble in place of the reply; replies computed under 4 other keys. "
-        "One execution = Device.authenticate + a following refresh against the reference device; the device-side wire "
+        "One execution = Device.authenticate + a following refresh + a further, genuinely answered authenticate and refresh against the reference device; the device-side wire "
         "log is the observable. A case is (triple, form, scenario, fault); non-trivial = every case (genuine included)")
 ASSUMPTIONS = [
     "the reply's 2-byte counter and the padding-count nibble are not part of the proof of key knowledge and are not flipped (DESIGN C06)",
@@ -198,7 +198,17 @@ def execute(tidx: int, form: int, scen: int, fault):
             ref = "ok"
         except BaseException as e:  # noqa: BLE001
             ref = type(e).__name__
-        return res, before, after, ref, ac.online
+        online = ac.online
+        marks["retry_from"] = len(dev.rx)
+        # whatever happened: a further attempt that is answered genuinely succeeds
+        try:
+            await ac.authenticate(token, key)
+            await ac.refresh()
+            retry = "ok" if ac.online else "offline"
+        except BaseException as e:  # noqa: BLE001
+            retry = type(e).__name__
+        marks["retry"] = retry
+        return res, before, after, ref, online
 
     try:
         out = w.run(drive())
@@ -216,7 +226,10 @@ def judge(st: Stats, case, obs, dev, marks, tidx, scen, fault):
         return obs[0]
     res, before, after, ref, online = obs
     during = dev.rx[marks["start"]:marks["end"]]
-    post = dev.rx[marks["end"]:]
+    post = dev.rx[marks["end"]:marks.get("retry_from", len(dev.rx))]
+    if marks.get("retry") != "ok":
+        st.violation(f"{'genuine' if fault[0] == 'genuine' else 'after a faulty reply'}: a following genuine authentication fails ({marks.get('retry')})"[:90],
+                     case, "authenticated and exchanging", marks.get("retry"))
     genuine = fault[0] == "genuine"
     if genuine:
         prob = None
